@@ -19,6 +19,14 @@
    loop suppresses like any other failure.  (The placeholder signature `() -> None` that
    the decorator gives an overloaded function plays no role in the resolution.)
 
+   Nested CALLS: a case may carry an outer overload set `os` (variants [p : the type of
+   their single parameter, ret]) and an outer mode `omode`; the call is then h(f(args)).
+   Each outer variant checks the inner call against its parameter type (ExprChecker.visit_Call
+   -> inner check_call with that type as target; synthesis if the parameter is generic), so
+   the inner call is resolved afresh per outer variant: if no inner variant fits, the inner
+   call fails as a whole (OverloadNoMatchError, suppressed by the outer loop) and is checked
+   again for the outer's next variant.  Every attempt starts from the arguments as written.
+
    A case (batch read from IOEnv.VERIF_IN) is
      [id, vs : sequence of variants [k : "fn", ps : parameter types, ret : result type]
                                   or [k : "set", vs : sequence of "fn" variants],
@@ -31,7 +39,8 @@
    critical step (arity check, one argument check, result check, fall through to the
    next variant).  Invariant FirstMatch relates it to the declarative reading of the
    property: the picked variant is the least index whose signature accepts the call.
-   Terminal states print [id, pick (0 = reject), ipick (index inside a nested set, else 0),
+   (os = <<>> for a plain call.)  Terminal states print [id, opick, ocomp (per outer variant the
+   inner function it would be composed with and whether it accepts), pick (0 = reject), ipick (index inside a nested set, else 0),
    rty, acc (per variant the acceptance of its function(s)), trail]. *)
 EXTENDS Naturals, Sequences, FiniteSets, TLC, Json, IOUtils
 
@@ -77,52 +86,67 @@ Accepts(v, args, mode) ==
 
 \* ---- the resolution algorithm ---------------------------------------------------------
 VARIABLES cid,    \* case
+          oi,     \* variant of the OUTER set being tried (0 if the call is not nested in another one)
           vi,     \* variant of the called set being tried (1-based)
           ji,     \* variant of the nested set being tried (0 if variant vi is a plain function)
           ai,     \* 0 = arity not checked yet, k = about to check argument k, n+1 = result check
           tb,     \* binding of the function's T ("none" = unbound)
-          out,    \* "run" | "pick" | "reject"
-          trail   \* per abandoned function / nested set: where it failed (step, argument position),
-                  \* and whether an earlier argument had already been accepted by coercion
-vars == <<cid, vi, ji, ai, tb, out, trail>>
+          out,    \* "run" | "ipick" (inner call resolved, outer result check pending) | "pick" | "reject"
+          trail   \* per abandoned function / nested set / outer variant: where it failed
+vars == <<cid, oi, vi, ji, ai, tb, out, trail>>
 
 C == Cases[cid]
+HasOuter == Len(C.os) > 0
+O == C.os[oi]
+OM(o) == IF o.p = "T" THEN "synth" ELSE o.p          \* mode in which outer variant o checks the inner call
+Mode == IF HasOuter THEN OM(O) ELSE C.mode
 Outer == C.vs[vi]
 V == IF Outer.k = "set" THEN Outer.vs[ji] ELSE Outer      \* the function being tried
 N == Len(C.args)
 FirstJ(v) == IF v.k = "set" THEN 1 ELSE 0
+Cond(r, m) == (m = "synth" /\ r # "none") \/ (m # "synth" /\ r \in {"none", m})
 
 Init == /\ cid \in 1..Len(Cases)
+        /\ oi = IF Len(Cases[cid].os) > 0 THEN 1 ELSE 0
         /\ vi = 1 /\ ji = FirstJ(Cases[cid].vs[1]) /\ ai = 0 /\ tb = "none" /\ out = "run" /\ trail = <<>>
 
 CoercedBefore(k) == \E i \in 1..(k - 1) : Coerced(C.args[i], IF V.ps[i] = "T" THEN tb ELSE V.ps[i])
 
+\* the current outer variant is abandoned (entries es record why): next outer variant, the inner call
+\* is resolved again from scratch; or nothing is left
+NextOuter(es) ==
+    /\ trail' = trail \o es
+    /\ IF HasOuter /\ oi < Len(C.os)
+       THEN oi' = oi + 1 /\ vi' = 1 /\ ji' = FirstJ(C.vs[1]) /\ ai' = 0 /\ tb' = "none" /\ out' = "run"
+       ELSE out' = "reject" /\ UNCHANGED <<oi, vi, ji, ai, tb>>
+    /\ UNCHANGED cid
+
 \* abandon the current function at step `why` (GuppyError suppressed) and go on: to the next
 \* function of the nested set, or - when the nested set is exhausted (its OverloadNoMatchError,
-\* raised after synthesising the types of all arguments, is suppressed too) - to the next variant
+\* raised after synthesising the types of all arguments, is suppressed too) - to the next variant;
+\* when the called set is exhausted the call fails as a whole (for the current outer variant)
 Abandon(why) ==
     LET e == [v |-> vi, j |-> ji, at |-> why, pos |-> ai,
               co |-> IF ai >= 2 /\ ai <= N + 1 THEN CoercedBefore(ai) ELSE FALSE]
         setDone == Outer.k = "set" /\ ji = Len(Outer.vs)
         es == IF setDone THEN <<e, [v |-> vi, j |-> 0, at |-> "set", pos |-> N + 1, co |-> FALSE]>> ELSE <<e>>
-    IN /\ trail' = trail \o es
-       /\ IF Outer.k = "set" /\ ~setDone
-          THEN ji' = ji + 1 /\ ai' = 0 /\ tb' = "none" /\ UNCHANGED <<vi, out>>
-          ELSE IF vi < Len(C.vs)
-          THEN vi' = vi + 1 /\ ji' = FirstJ(C.vs[vi + 1]) /\ ai' = 0 /\ tb' = "none" /\ out' = out
-          ELSE out' = "reject" /\ UNCHANGED <<vi, ji, ai, tb>>
-       /\ UNCHANGED cid
+    IN IF Outer.k = "set" /\ ~setDone
+       THEN trail' = trail \o es /\ ji' = ji + 1 /\ ai' = 0 /\ tb' = "none" /\ UNCHANGED <<cid, oi, vi, out>>
+       ELSE IF vi < Len(C.vs)
+       THEN /\ trail' = trail \o es
+            /\ vi' = vi + 1 /\ ji' = FirstJ(C.vs[vi + 1]) /\ ai' = 0 /\ tb' = "none" /\ UNCHANGED <<cid, oi, out>>
+       ELSE NextOuter(IF HasOuter THEN es \o <<[v |-> 0, j |-> 0, at |-> "oinner", pos |-> oi, co |-> FALSE]>> ELSE es)
 
-ArityOk   == out = "run" /\ ai = 0 /\ Len(V.ps) = N /\ ai' = 1 /\ UNCHANGED <<cid, vi, ji, tb, out, trail>>
+ArityOk   == out = "run" /\ ai = 0 /\ Len(V.ps) = N /\ ai' = 1 /\ UNCHANGED <<cid, oi, vi, ji, tb, out, trail>>
 ArityFail == out = "run" /\ ai = 0 /\ Len(V.ps) # N /\ Abandon("arity")
 
 ArgBindsT == /\ out = "run" /\ ai \in 1..N /\ V.ps[ai] = "T" /\ tb = "none"
              /\ tb' = SynthTy(C.args[ai]) /\ ai' = ai + 1
-             /\ UNCHANGED <<cid, vi, ji, out, trail>>
+             /\ UNCHANGED <<cid, oi, vi, ji, out, trail>>
 Expected == IF V.ps[ai] = "T" THEN tb ELSE V.ps[ai]
 ArgOk   == /\ out = "run" /\ ai \in 1..N /\ ~(V.ps[ai] = "T" /\ tb = "none")
            /\ AcceptsAt(C.args[ai], Expected)
-           /\ ai' = ai + 1 /\ UNCHANGED <<cid, vi, ji, tb, out, trail>>
+           /\ ai' = ai + 1 /\ UNCHANGED <<cid, oi, vi, ji, tb, out, trail>>
 ArgFail == /\ out = "run" /\ ai \in 1..N /\ ~(V.ps[ai] = "T" /\ tb = "none")
            /\ ~AcceptsAt(C.args[ai], Expected)
            /\ Abandon("arg")
@@ -130,45 +154,78 @@ ArgFail == /\ out = "run" /\ ai \in 1..N /\ ~(V.ps[ai] = "T" /\ tb = "none")
 Resolved == IF V.ret = "T" THEN tb ELSE V.ret
 ResultOk ==
     /\ out = "run" /\ ai = N + 1
-    /\ \/ C.mode = "synth" /\ Resolved # "none"
-       \/ C.mode # "synth" /\ Resolved \in {"none", C.mode}
-    /\ out' = "pick"
-    /\ tb' = IF Resolved = "none" THEN C.mode ELSE tb      \* T inferred from the target
-    /\ UNCHANGED <<cid, vi, ji, ai, trail>>
+    /\ Cond(Resolved, Mode)
+    /\ out' = IF HasOuter THEN "ipick" ELSE "pick"
+    /\ tb' = IF Resolved = "none" THEN Mode ELSE tb      \* T inferred from the target
+    /\ UNCHANGED <<cid, oi, vi, ji, ai, trail>>
 ResultFail ==
     /\ out = "run" /\ ai = N + 1
-    /\ \/ C.mode = "synth" /\ Resolved = "none"
-       \/ C.mode # "synth" /\ Resolved \notin {"none", C.mode}
+    /\ ~Cond(Resolved, Mode)
     /\ Abandon("result")
 
-Next == ArityOk \/ ArityFail \/ ArgBindsT \/ ArgOk \/ ArgFail \/ ResultOk \/ ResultFail
+\* the inner call is resolved (its type: InnerRty); the outer variant's own result check
+InnerRty == IF V.ret = "T" THEN tb ELSE V.ret
+OResOf(o, rty) == IF o.ret = "T" THEN (IF o.p = "T" THEN rty ELSE "none") ELSE o.ret
+OuterOk   == /\ out = "ipick" /\ Cond(OResOf(O, InnerRty), C.omode)
+             /\ out' = "pick" /\ UNCHANGED <<cid, oi, vi, ji, ai, tb, trail>>
+OuterFail == /\ out = "ipick" /\ ~Cond(OResOf(O, InnerRty), C.omode)
+             /\ NextOuter(<<[v |-> 0, j |-> 0, at |-> "oresult", pos |-> oi, co |-> FALSE]>>)
+
+Next == ArityOk \/ ArityFail \/ ArgBindsT \/ ArgOk \/ ArgFail \/ ResultOk \/ ResultFail \/ OuterOk \/ OuterFail
 Spec == Init /\ [][Next]_vars
 
 \* ---- properties -----------------------------------------------------------------------
+\* the functions of the called set in resolution order, as pairs <<variant, index in nested set or 0>>
+Pairs == {p \in (1..Len(C.vs)) \X (0..3) :
+            IF C.vs[p[1]].k = "set" THEN p[2] \in 1..Len(C.vs[p[1]].vs) ELSE p[2] = 0}
+Lt(p, q) == p[1] < q[1] \/ (p[1] = q[1] /\ p[2] < q[2])
+LeafFn(p) == IF p[2] = 0 THEN C.vs[p[1]] ELSE C.vs[p[1]].vs[p[2]]
+AccPairs(m) == {p \in Pairs : AcceptsFn(LeafFn(p), C.args, m)}
+FirstAcc(m) == IF AccPairs(m) = {} THEN <<0, 0>>
+               ELSE CHOOSE p \in AccPairs(m) : \A q \in AccPairs(m) : p = q \/ Lt(p, q)
+\* declaratively: outer variant o accepts h(f(args)) iff the inner call resolves under o's parameter
+\* type and o's result fits
+OuterAcc(o) == LET p == FirstAcc(OM(o)) IN
+               /\ p # <<0, 0>>
+               /\ Cond(OResOf(o, ResultTy(LeafFn(p), C.args, OM(o))), C.omode)
+
 FirstMatch ==
-    /\ out = "pick"   => /\ Accepts(Outer, C.args, C.mode)
-                         /\ AcceptsFn(V, C.args, C.mode)
-                         /\ \A j \in 1..(vi - 1) : ~Accepts(C.vs[j], C.args, C.mode)
-                         /\ Outer.k = "set" => \A j \in 1..(ji - 1) : ~AcceptsFn(Outer.vs[j], C.args, C.mode)
-    /\ out = "reject" => \A j \in 1..Len(C.vs) : ~Accepts(C.vs[j], C.args, C.mode)
-\* functions are tried in listing order (nested sets in place), an abandoned one is never picked later
+    /\ (~HasOuter /\ out = "pick") =>
+          /\ Accepts(Outer, C.args, C.mode)
+          /\ AcceptsFn(V, C.args, C.mode)
+          /\ \A j \in 1..(vi - 1) : ~Accepts(C.vs[j], C.args, C.mode)
+          /\ Outer.k = "set" => \A j \in 1..(ji - 1) : ~AcceptsFn(Outer.vs[j], C.args, C.mode)
+    /\ (~HasOuter /\ out = "reject") => \A j \in 1..Len(C.vs) : ~Accepts(C.vs[j], C.args, C.mode)
+    /\ (HasOuter /\ out \in {"ipick", "pick"}) => <<vi, ji>> = FirstAcc(OM(O))
+    /\ (HasOuter /\ out = "pick") => OuterAcc(O) /\ \A k \in 1..(oi - 1) : ~OuterAcc(C.os[k])
+    /\ (HasOuter /\ out = "reject") => \A k \in 1..Len(C.os) : ~OuterAcc(C.os[k])
+\* functions are tried in listing order (nested sets in place), an abandoned one is never picked later;
+\* outer variants are abandoned in order 1, 2, ...
 Before(a, b) == a.v < b.v \/ (a.v = b.v /\ a.j # 0 /\ (b.j = 0 \/ a.j < b.j))
+IsOuterEntry(e) == e.at \in {"oinner", "oresult"}
 TrailInOrder ==
-    /\ \A k \in 1..(Len(trail) - 1) : Before(trail[k], trail[k + 1])
-    /\ out = "pick" => \A k \in 1..Len(trail) : Before(trail[k], [v |-> vi, j |-> IF ji = 0 THEN 0 ELSE ji])
+    /\ ~HasOuter => /\ \A k \in 1..(Len(trail) - 1) : Before(trail[k], trail[k + 1])
+                    /\ out = "pick" => \A k \in 1..Len(trail) : Before(trail[k], [v |-> vi, j |-> ji])
+    /\ LET oe == SelectSeq(trail, IsOuterEntry) IN
+       /\ \A k \in 1..Len(oe) : oe[k].pos = k
+       /\ out = "pick" /\ HasOuter => Len(oe) = oi - 1
 \* resolution is deterministic: exactly one step is possible until the outcome is known
-Deterministic == out = "run" =>
-    Cardinality({a \in {"ArityOk", "ArityFail", "ArgBindsT", "ArgOk", "ArgFail", "ResultOk", "ResultFail"} :
-        CASE a = "ArityOk" -> ENABLED ArityOk [] a = "ArityFail" -> ENABLED ArityFail
-          [] a = "ArgBindsT" -> ENABLED ArgBindsT [] a = "ArgOk" -> ENABLED ArgOk
-          [] a = "ArgFail" -> ENABLED ArgFail [] a = "ResultOk" -> ENABLED ResultOk
-          [] a = "ResultFail" -> ENABLED ResultFail}) = 1
+Deterministic ==
+    /\ out = "run" =>
+        Cardinality({a \in {"ArityOk", "ArityFail", "ArgBindsT", "ArgOk", "ArgFail", "ResultOk", "ResultFail"} :
+            CASE a = "ArityOk" -> ENABLED ArityOk [] a = "ArityFail" -> ENABLED ArityFail
+              [] a = "ArgBindsT" -> ENABLED ArgBindsT [] a = "ArgOk" -> ENABLED ArgOk
+              [] a = "ArgFail" -> ENABLED ArgFail [] a = "ResultOk" -> ENABLED ResultOk
+              [] a = "ResultFail" -> ENABLED ResultFail}) = 1
+    /\ out = "ipick" => (ENABLED OuterOk) # (ENABLED OuterFail)
 
 AccOf(v) == IF v.k = "set" THEN [j \in 1..Len(v.vs) |-> AcceptsFn(v.vs[j], C.args, C.mode)]
             ELSE <<AcceptsFn(v, C.args, C.mode)>>
-Emit == out # "run" =>
+Emit == out \in {"pick", "reject"} =>
     PrintT(ToJson([id |-> C.id, pick |-> IF out = "pick" THEN vi ELSE 0,
                    ipick |-> IF out = "pick" THEN ji ELSE 0,
+                   opick |-> IF out = "pick" THEN oi ELSE 0,
+                   ocomp |-> [k \in 1..Len(C.os) |-> [leaf |-> FirstAcc(OM(C.os[k])), acc |-> OuterAcc(C.os[k])]],
                    rty |-> IF out = "pick" THEN (IF V.ret = "T" THEN tb ELSE V.ret) ELSE "none",
                    acc |-> [j \in 1..Len(C.vs) |-> AccOf(C.vs[j])],
                    trail |-> trail]))
